@@ -229,3 +229,31 @@ impl VpStrExt for str {
             forall|i: int| 0 <= i < r.remaining().len() ==> (#[trigger] r.remaining()[i])@ == split_v(self@, c)[i],
     { self.split(c).collect::<Vec<&'a str>>().into_iter() }
 }
+
+// ---- `slice.iter().filter(p).rev().find_map(f)`: not used by /repo today; specified so that the variant of the
+// keyword extractors in which the LAST matching keyword wins is DECIDED (refuted) instead of undecided
+pub struct VpFilterRev<'a, T, P> { pub it: core::slice::Iter<'a, T>, pub p: P }
+impl<'a, T, P: FnMut(&&'a T) -> bool> VpFilter<'a, T, P> {
+    pub fn rev(self) -> (r: VpFilterRev<'a, T, P>)
+        ensures r.it == self.it, r.p == self.p
+    { VpFilterRev { it: self.it, p: self.p } }
+}
+impl<'a, T, P: FnMut(&&'a T) -> bool> VpFilterRev<'a, T, P> {
+    /// f's result on the LAST element that p accepts and f maps to `Some`
+    #[verifier::external_body]
+    pub fn vp_find_map<B, F: FnMut(&'a T) -> Option<B>>(self, f: F) -> (r: Option<B>)
+        requires forall|x: &&'a T| #[trigger] call_requires(self.p, (x,)), forall|x: &'a T| #[trigger] call_requires(f, (x,)),
+        ensures ({
+            let s = self.it.remaining();
+            let p = self.p;
+            match r {
+                Some(b) => ({
+                    let i = vp_hit(s, r);
+                    0 <= i < s.len() && call_ensures(p, (&s[i],), true) && call_ensures(f, (s[i],), Some(b))
+                    && (forall|j: int| i < j < s.len() ==> call_ensures(p, (&#[trigger] s[j],), false) || call_ensures(f, (s[j],), None::<B>))
+                }),
+                None => forall|j: int| 0 <= j < s.len() ==> call_ensures(p, (&#[trigger] s[j],), false) || call_ensures(f, (s[j],), None::<B>),
+            }
+        }),
+    { self.it.filter(self.p).rev().find_map(f) }
+}
